@@ -1,5 +1,6 @@
 """C07 - oneof exclusivity (O1-O4 + D1)."""
 from . import presence
+from .c14 import rule_V5
 
 PROP = "C07"
 TECHNIQUE = "who-may-write (package-wide store scan), all-path bookkeeping in __setattr__ by E2/CFG, access-gate ordering, emitter truth tables"
@@ -14,6 +15,8 @@ RULE_TEXT = "obligation = (rule, function / writer / emitter branch); evaluation
 
 
 def run(ctx) -> None:
+    ctx.rules_run.append("V5")
+    rule_V5(ctx)            # copies must not share the selection table with the original
     for name, fn in (("O1", presence.rule_O1), ("O2", presence.rule_O2), ("O3", presence.rule_O3), ("O4", presence.rule_O4), ("D1", presence.rule_D1)):
         ctx.rules_run.append(name)
         fn(ctx)
